@@ -166,9 +166,15 @@ class CodegenHarness(Harness):
                 r = sem.call(f, argv)
             except irsem.StepLimit as e:
                 raise core.PathCut(str(e))
+            # only executions inside the premise matter: restrict the path to them (an empty restriction ends the path)
+            prem_t = _tv.term_out(sem.premise())
+            if sym:
+                core.ENG.assume(prem_t)
+            elif not prem_t:
+                raise core.Abort()
             ref = _tv.observable(sem, r)
             ref["undef"] = {k: [_tv.term_out(u) for u in sem.undefined_bytes(k)] for k in ref["mem"]}
-            premise = _tv.term_out(sem.premise())
+            premise = prem_t
         except irsem.Unsupported as e:
             return dict(status="unsupported", why=str(e)[:100])
         regions = [(rg.name, rg.base, rg.size) for rg in sem.regions if rg.kind in ("global", "buffer")]
